@@ -48,7 +48,11 @@ static std::string deflate_with(const igz::DefOpts &o, const std::vector<uint8_t
 static void decode_def(Tape &t, igz::DefOpts &o, const char *&lv) {
 	o.level = (int) t.range(0, 3);
 	o.gzip_flag = (int) t.range(0, 4);
-	o.lbuf_size = igz::lvl_buf_size(o.level, (int) t.range(0, 4));
+	int lb = (int) t.range(0, 4);
+	o.lbuf_size = igz::lvl_buf_size(o.level, lb);
+	// level 0 has no level buffer, so its draw selects the Huffman table instead: with the static table the block header is zero bytes long
+	// and the header/trailer resume states (count == 0 in ZSTATE_HDR) behave differently from the default table
+	if (o.level == 0 && (lb & 1)) o.table = IGZIP_HUFFTABLE_STATIC;
 	o.hist_bits = (int) t.pick<uint32_t>({0, 0, 12, 15, 9});
 	lv = cpu::LEVEL_NAMES[t.pick<uint32_t>({11, 0, 1, 6, 8})];
 }
